@@ -10,4 +10,17 @@ GenInit == Init /\ pace = 0
 GenNext == \/ EnvNext /\ (pace >= 2 \/ Quiet) /\ pace' = 0
            \/ ClientNext /\ pace' = IF pace < 3 THEN pace + 1 ELSE pace
 GenSpec == GenInit /\ [][GenNext]_<<vars, pace>>
+
+\* scenarios about events of other master sets (SetNames = NamesAll): roles flip, views change, the client's own set
+\* fails over, and every event of a foreign set is a tempting one -- it names a node that is up, honestly answers ROLE
+\* master (it is the master of that other set) and that no sentinel has reported as master of the client's set
+Tempting(m) == /\ m.ch \in {"switch", "rebootm"} /\ ~Concerns(m.set)
+               /\ up[m.a] /\ role[m.a] = "master" /\ m.a \notin reported["m"]
+EnvForeign == \/ \E n \in Nodes, r \in {"master", "slave"} : SetRole(n, r)
+              \/ \E s \in Sentinels, v \in Views : SView(s, v)
+              \/ \E s \in Sentinels, m \in Msgs : /\ ((Concerns(m.set) /\ m.ch = "switch") \/ Tempting(m))
+                                                   /\ Publish(s, m)
+GenNextF == \/ EnvForeign /\ (pace >= 2 \/ Quiet) /\ pace' = 0
+            \/ ClientNext /\ pace' = IF pace < 3 THEN pace + 1 ELSE pace
+GenSpecF == GenInit /\ [][GenNextF]_<<vars, pace>>
 =============================================================================
